@@ -52,7 +52,7 @@ class Livelock(BaseException):
 
 
 class CaseTimeout(BaseException):
-    """Wall-clock alarm fired (inconclusive, never a violation)."""
+    """Watchdog (CPU-time budget, wall-clock backstop) fired (inconclusive, never a violation)."""
 
 
 class InjectedFault(Exception):
@@ -67,24 +67,30 @@ def _alarm_handler(signum, frame):
 
 
 signal.signal(signal.SIGALRM, _alarm_handler)
+signal.signal(signal.SIGPROF, _alarm_handler)
 _DEADLINES = []
+WALL_FACTOR = 20.0   # wall-clock backstop for a deadline stated in CPU seconds
 
 
 def _rearm():
     if _DEADLINES:
-        signal.setitimer(signal.ITIMER_REAL, max(0.01, min(_DEADLINES) - time.time()))
+        signal.setitimer(signal.ITIMER_PROF, max(0.01, min(d[0] for d in _DEADLINES) - time.process_time()))
+        signal.setitimer(signal.ITIMER_REAL, max(0.01, min(d[1] for d in _DEADLINES) - time.time()))
     else:
+        signal.setitimer(signal.ITIMER_PROF, 0)
         signal.setitimer(signal.ITIMER_REAL, 0)
 
 
 class alarm(object):
-    """Nestable wall-clock alarm (innermost deadline wins; outer one re-armed on exit)."""
+    """Nestable watchdog (innermost deadline wins; outer one re-armed on exit). The deadline is stated in CPU seconds of this
+    process (ITIMER_PROF), so that a loaded machine does not turn slow cases into watchdog firings; a wall-clock backstop at
+    WALL_FACTOR times the budget catches anything that blocks without computing."""
 
     def __init__(self, seconds):
         self.seconds = float(max(0.05, seconds))
 
     def __enter__(self):
-        self.deadline = time.time() + self.seconds
+        self.deadline = (time.process_time() + self.seconds, time.time() + WALL_FACTOR * self.seconds)
         _DEADLINES.append(self.deadline)
         _rearm()
 
